@@ -69,6 +69,14 @@ def gen_cases(ctx):
                       "[optf (poly_evar F64_ops %s %s)]" % (fcorr.coq_list(c), fcorr.coqf(x)), ("pevar", c, x)))
         cases.append(("pswap " + " ".join(fcorr.argbits(v) for v in c),
                       "poly_swap %s" % fcorr.coq_list(c), ("pswap", c)))
+        # the public wrappers, lengths 0, 1, 2 over-represented
+        cw = c[:r.choice([0, 1, 1, 2, ln])]
+        cases.append(("pevalw " + " ".join(fcorr.argbits(v) for v in cw + [x]),
+                      "[poly_eval_w F64_ops %s %s]" % (fcorr.coq_list(cw), fcorr.coqf(x)), ("pevalw", cw, x)))
+        cases.append(("pevarw " + " ".join(fcorr.argbits(v) for v in cw + [x]),
+                      "[poly_evar_w F64_ops %s %s]" % (fcorr.coq_list(cw), fcorr.coqf(x)), ("pevarw", cw, x)))
+        cases.append(("pswapw" + "".join(" " + fcorr.argbits(v) for v in cw),
+                      "poly_swap_w %s" % fcorr.coq_list(cw), ("pswapw", cw)))
     return cases
 
 
@@ -124,13 +132,13 @@ def oracle(meta, out):
             if not (e == o or (e != e and o != o) or abs(e - o) <= 1e-9 * max(abs(e), abs(o), 1e-300)):
                 return "trajpoly%d evaluation output %d is %r, derivative/Horner definition gives %r" % (deg, i, o, e)
         return None
-    if kind in ("peval", "pevar"):
+    if kind in ("peval", "pevar", "pevalw", "pevarw"):
         c, x = meta[1], meta[2]
-        e = horner(c if kind == "peval" else c[::-1], x)
+        e = horner(c if kind.startswith("peval") else c[::-1], x) if c else 0.0
         o = out[0]
         ok = e == o or (e != e and o != o) or abs(e - o) <= 1e-9 * max(abs(e), abs(o), 1e-300)
-        return None if ok else "a_poly_%s_ gives %r, Horner value %r" % (kind[1:], o, e)
-    if kind == "pswap":
+        return None if ok else "a_poly_%s gives %r for %d coefficients, Horner value %r" % (kind[1:].replace("w", "") + ("" if kind.endswith("w") else "_"), o, len(c), e)
+    if kind in ("pswap", "pswapw"):
         return None if [fcorr.bits(v) for v in out] == [fcorr.bits(v) for v in meta[1][::-1]] else "a_poly_swap_ is not the reversal"
     return None
 
@@ -150,6 +158,8 @@ def run(ctx):
     crashes = []
     c_out = fcorr.run_c(cbin, [c[0] for c in cases], crashes=crashes)
     for idx, msg in crashes:
+        if msg.startswith("skipped"):
+            continue
         ctx.report("%s/sanitizer" % cases[idx][2][0], "the C aborted on this case: " + msg,
                    {"case": cases[idx][0], "inputs": [repr(x) for x in cases[idx][2][1:]], "stderr": msg})
     crashed = set(i for i, _ in crashes)
